@@ -251,6 +251,44 @@ CHECKS = {
 
 NOT_YET = {}
 
+# Layers added after the texts above were written (seventh / eighth wave of seeded changes); appended to the level text.
+EXTRA = {
+    "C01": " Added later: long text (up to 5 000 characters, foldable, with leading / double / trailing blanks) as value and in "
+           "every text attribute; ids of other uuid versions and hand-assigned ids on Document, Section and Property; names that "
+           "coincide across kinds (a sub-Section and a Property of one name), across levels, up to case, as prefix, and names "
+           "that look like element tags or numbers.",
+    "C02": " Added later: the long-text, id-form and name-coincidence layers of C01.",
+    "C03": " Positions include negative ones inside and beyond the list (-2, -4, -99) and a float.",
+    "C04": " Positions as in C03; an operation that leaves a child list with one name twice is reported even when the resulting "
+           "state also breaks the tree invariant (such states are not expanded).",
+    "C06": " Plus a layer 'merges of whole trees': every (destination, source) pair of the C13 generator (73 588 in the quick "
+           "tier) is merged and, where the merge raises, the destination must be unchanged.",
+    "C10": " Added later: the long-text, id-form and name-coincidence layers of C01.",
+    "C13": " Plus a layer of merge sequences: destinations that carry state from an earlier merge (another source, the same "
+           "source again, a clone of it, merges one and two levels further down, strict after non-strict, refused after "
+           "successful and vice versa, first-second-first), each step judged by the reference applied to the state before it.",
+    "C14": " Plus a layer of start points outside any Document (trees built without one, sub-trees removed from one, clones with "
+           "and without children): traversal and find clauses from every node; path clauses are not judged there.",
+    "C15": " Added later: XML through a StringIO that holds the XML declaration; YAML written from shared sub-structures (anchors "
+           "and aliases) for documents with repeated values / Properties / sub-Sections; null entries in the dictionary forms; "
+           "value text placed after the value's child elements.",
+    "C16": " Added later: layer (e) deep nesting (14 XML and 8 dictionary shapes at 9 / 21 depths up to 3 000 / 10 000) and layer (f) "
+           "pumped input (runs of 30 / 64 / 5 000 of one unit at 13 XML and 5 dictionary sites), each reader call under its own "
+           "processor-time watchdog ('never hangs'); the survivors oracle forgives an attribute-level mutation only the "
+           "attribute it touched (the object keeps its id and its other attributes) and a duplicated element only itself.",
+    "C17": " Added later: seven spellings of the search / input directory (relative, through '..', trailing separator, below a "
+           "hidden directory, names with regular-expression metacharacters or a blank), base names that resemble derived output "
+           "names (a / a_conv), and for the format converter every output that exists is loaded and compared with its source.",
+    "C18": " The scheduler also controls Lock, RLock, Event, Condition, Semaphore and sleep (blocking is modelled, timed waits "
+           "expire only when nothing else can run, polling loops have a yield horizon), so library code that synchronises "
+           "is explored rather than hanging the harness (tools/sched_selftest.py: 13 toy programs with known outcome sets).",
+    "C19": " Added later: string Properties whose values look like several other dtypes (ties), documents with unresolved and "
+           "resolved links / includes with cardinalities, 8 / 24 hash seeds in the other-process layer, merged state in the snapshot.",
+    "C20": " Added later: a document set whose objects carry characters special to Python format strings, SPARQL literals, XML, "
+           "regular expressions and the query's own variable names (33 + 9 backslash / control atoms) asked through every entry; a "
+           "document set and queries in which one attribute=value is asked of two kinds with a hit for exactly one of them.",
+}
+
 
 def main():
     props = [json.loads(l) for l in open(os.path.join(HERE, "properties.jsonl"))]
@@ -270,7 +308,7 @@ def main():
             "evidence_file": "evidence/%s.json" % pid,
             "replay_cmd_template": "%s run.py %s --replay {path}" % (PY, pid),
             "engine": c["engine"],
-            "level_claimed": {"category": c["category"], "text": c["text"], "design_ref": c["design"]},
+            "level_claimed": {"category": c["category"], "text": c["text"] + EXTRA.get(pid, ""), "design_ref": c["design"]},
             "level_note": c.get("note", TRUSTED),
             "technique": c["technique"],
         })
